@@ -65,10 +65,10 @@ func (c *recorder) In(sid pipeline.SourceID, _ string, _ pipeline.Offsets, data 
 	}
 	return uint64(len(c.log))
 }
-func (c *recorder) UseSpread()                         {}
-func (c *recorder) DisableStreams()                    {}
-func (c *recorder) SuggestDecoder(decoder.Type)        {}
-func (c *recorder) IncReadOps()                        {}
+func (c *recorder) UseSpread()                        {}
+func (c *recorder) DisableStreams()                   {}
+func (c *recorder) SuggestDecoder(decoder.Type)       {}
+func (c *recorder) IncReadOps()                       {}
 func (c *recorder) IncMaxEventSizeExceeded(...string) {}
 
 type respWriter struct {
@@ -155,6 +155,7 @@ type tcase struct {
 	Avg      int       `json:"avg_event_size"` // pipeline setting: initial capacity of the carry-over buffer
 	Reqs     []reqSpec `json:"reqs"`           // sequential on one plugin instance, or concurrent when Schedule != nil
 	Schedule []int     `json:"schedule,omitempty"`
+	Main     int       `json:"main"` // index of the enumerated request (the others are primer/probe); -1: all
 }
 
 func wantLines(body string) []string {
@@ -523,7 +524,10 @@ func (c *checker) checkReq(tc *tcase, idx int, res reqResult) (got []string, ok 
 }
 
 func nontrivial(tc *tcase) bool {
-	for _, rs := range tc.Reqs {
+	for i, rs := range tc.Reqs {
+		if tc.Main >= 0 && i != tc.Main {
+			continue
+		}
 		w := nonEmpty(wantLines(rs.Body))
 		if len(w) == 0 {
 			continue
@@ -593,22 +597,32 @@ func (c *checker) runCase(tc *tcase) {
 			allOK = false
 			r.Violation("schedule", c.feats(tc), fmt.Sprintf("the number of Reads of a request differs from its solo run: reqs=%+v schedule=%v", tc.Reqs, tc.Schedule), tc)
 		}
-		// distinct live requests use distinct source ids
-		sidOf := map[int]pipeline.SourceID{}
-		for _, e := range c.rec.log {
-			if e.Kind == 'I' {
-				sidOf[e.Req] = e.SID
+		// Distinct live requests use distinct source ids. What the pipeline can observe of a request's source id is
+		// the span from its first to its last In call (positions in the global log); a request that has not yet
+		// called In, or will not call it again, may share the id (the free list hands it on). So: the In spans of two
+		// requests that use the same id must not overlap.
+		type span struct {
+			sid         pipeline.SourceID
+			first, last int
+		}
+		spans := map[int]*span{}
+		for pos, e := range c.rec.log {
+			if e.Kind != 'I' {
+				continue
+			}
+			if sp, ok := spans[e.Req]; ok {
+				sp.last = pos
+			} else {
+				spans[e.Req] = &span{e.SID, pos, pos}
 			}
 		}
 		for i := range qs {
 			for j := i + 1; j < len(qs); j++ {
-				si, iok := sidOf[i]
-				sj, jok := sidOf[j]
-				overlap := qs[i].first <= qs[j].last && qs[j].first <= qs[i].last
-				if iok && jok && overlap && si == sj {
+				a, b := spans[i], spans[j]
+				if a != nil && b != nil && a.sid == b.sid && a.first <= b.last && b.first <= a.last {
 					allOK = false
 					r.Violation("source-id", c.feats(tc, "kind", "shared-by-live-requests"),
-						fmt.Sprintf("requests %d and %d are alive at the same time and both use source id %d; reqs=%+v schedule=%v", i, j, si, tc.Reqs, tc.Schedule), tc)
+						fmt.Sprintf("In calls of requests %d and %d interleave and both use source id %d; log=%+v reqs=%+v schedule=%v", i, j, a.sid, c.rec.log, tc.Reqs, tc.Schedule), tc)
 				}
 			}
 		}
@@ -798,7 +812,7 @@ func TestVerif(t *testing.T) {
 	r.Bound("avg_event_size", []int{0, 4096})
 	r.Bound("sequence", "optional primer request, the enumerated request, a fixed probe request - on one plugin instance without touching its pools in between")
 	r.Bound("concurrency", "2 requests x <=3 chunks (all interleavings of chunk deliveries), 3 requests x <=1 chunk (quick) / <=2 chunks (thorough)")
-	r.Rule("every body over {a,b,\\n,\\r} up to the length bound x every composition into read chunks x read-buffer sizes {1,2,3,16384} x two EOF styles x primers x driving modes (processChunk, processBulk, ServeHTTP plain/elasticsearch), gzip bodies with the chunkings of the compressed stream; plus all chunk-level interleavings of concurrent requests. A case is non-trivial if a request with at least one non-empty line arrives in >=2 transport chunks or has a line longer than the read buffer. distinct = distinct (In data sequences, chunkings, buffer size, schedule)")
+	r.Rule("every body over {a,b,\\n,\\r} up to the length bound x every composition into read chunks x read-buffer sizes {1,2,3,16384} x two EOF styles x primers x driving modes (processChunk, processBulk, ServeHTTP plain/elasticsearch), gzip bodies with the chunkings of the compressed stream; plus all chunk-level interleavings of concurrent requests. A case is non-trivial if the enumerated request (not primer/probe; any request of a concurrent case) has at least one non-empty line and arrives in >=2 transport chunks or has a line longer than the read buffer. distinct = distinct (In data sequences, chunkings, buffer size, schedule)")
 	r.Assume("the transport is an io.Reader returning the chosen chunks (net/http server and TCP segmentation are not executed)")
 	r.Assume("empty records are not events: Pipeline.In discards len(data)==0 before doing anything, so the oracle compares the non-empty records")
 	r.Assume("interleavings of concurrent requests are explored at the granularity of body Reads (lock-step readers); finer-grained data races are out of scope")
@@ -807,7 +821,7 @@ func TestVerif(t *testing.T) {
 	// primers: run before the enumerated request on the same plugin instance (pools are not touched in between)
 	primers := [][]reqSpec{
 		nil,
-		{{Body: "aaaaaaaaa", Chunks: []int{9}}},                  // long unterminated line: grows the carry-over buffer
+		{{Body: "aaaaaaaaa", Chunks: []int{9}}}, // long unterminated line: grows the carry-over buffer
 		{{Body: "ab\nba", Chunks: ones(5), EOFWithLast: true}}, // 1-byte reads, non-empty carry-over at the end
 		{{Body: "bb\nab", Gzip: true, Chunks: []int{len(gz("bb\nab"))}}},
 	}
@@ -838,12 +852,12 @@ func TestVerif(t *testing.T) {
 					for pi, pr := range primers {
 						reqs := append(append(append([]reqSpec{}, pr...), main), probe)
 						for _, avg := range []int{0, 4096} {
-							c.runCase(&tcase{Mode: "bulk", Buf: buf, Avg: avg, Reqs: reqs})
+							c.runCase(&tcase{Mode: "bulk", Buf: buf, Avg: avg, Reqs: reqs, Main: len(pr)})
 						}
 						if pi <= 1 || (pi == 3 && buf == 3) {
-							c.runCase(&tcase{Mode: "serve", Buf: buf, Avg: 0, Reqs: reqs})
+							c.runCase(&tcase{Mode: "serve", Buf: buf, Avg: 0, Reqs: reqs, Main: len(pr)})
 							if buf == 3 || buf == defaultBuf {
-								c.runCase(&tcase{Mode: "serve-es", Buf: buf, Avg: 4096, Reqs: reqs})
+								c.runCase(&tcase{Mode: "serve-es", Buf: buf, Avg: 4096, Reqs: reqs, Main: len(pr)})
 							}
 						}
 					}
@@ -876,7 +890,7 @@ func TestVerif(t *testing.T) {
 					if (gi+pi)%2 == 1 {
 						mode, avg = "serve-es", 4096
 					}
-					c.runCase(&tcase{Mode: mode, Buf: buf, Avg: avg, Reqs: reqs})
+					c.runCase(&tcase{Mode: mode, Buf: buf, Avg: avg, Reqs: reqs, Main: len(pr)})
 				}
 			}
 		}
@@ -922,7 +936,7 @@ func TestVerif(t *testing.T) {
 							if si%256 == 0 && r.Expired() {
 								return false
 							}
-							c.runCase(&tcase{Mode: mode, Buf: buf, Avg: 0, Reqs: reqs, Schedule: sch})
+							c.runCase(&tcase{Mode: mode, Buf: buf, Avg: 0, Reqs: reqs, Schedule: sch, Main: -1})
 						}
 					}
 				}
